@@ -18,7 +18,8 @@ LEVEL = "exploration"
 RULE = ("whole reference proteins with threaded clusters of like groups around buried positions (ASP/GLU pairs and "
         "triples, HIS/HIS, CYS/CYS, LYS/ARG, mixed; library ions/ligands next to the cluster), the reference proteins "
         "themselves and corpus-derived balls; each run with the analysis on and off in the same process; drawn "
-        "parameter files (sharing / removal / charge-centre switches, wider coupling thresholds) and verbosity options "
+        "parameter files (sharing / removal / charge-centre switches, wider coupling thresholds, seven other settings of the "
+        "analysis' own thresholds: min_pka / max_pka window, energy criteria) and verbosity options "
         "(--log-level DEBUG/WARNING, -q). Non-trivial: "
         "the analysis swapped at least one pair past the interaction-energy gate (counted by wrapping "
         "swap_interactions from the harness) and found >= 1 coupled pair; distinct by hash of the input.")
@@ -47,6 +48,13 @@ def run_with(text, enabled, count_swaps=False, opt=()):
 
 LOOSE = {"max_intrinsic_pka_diff": "3.5", "min_interaction_energy": "0.3", "max_free_energy_diff": "2.0",
          "min_swap_pka_shift": "0.5", "max_pka": "12.0"}
+# other settings of the analysis' own thresholds (the window of default pKa values it looks at, the energy
+# criteria; a numeric reference pH in the parameter file is left out: the shipped reader keeps it as a string and the
+# analysis raises TypeError with it, which is outside what C15 states): whatever the thresholds are, the analysis must leave the results alone
+THRESHOLDS = [dict(LOOSE, min_pka="3.5"), dict(LOOSE, min_pka="5.5", max_pka="14.0"), dict(LOOSE, max_pka="6.0"),
+              dict(LOOSE, min_pka="4.5", max_intrinsic_pka_diff="5.0"), dict(LOOSE, max_pka="4.4"),
+              {"min_pka": "4.2", "max_intrinsic_pka_diff": "6.0", "min_swap_pka_shift": "0.1"},
+              dict(LOOSE, min_pka="-5.0", max_pka="20.0", max_free_energy_diff="6.0", min_interaction_energy="0.05")]
 FLAGSETS = [None, {"shared_determinants": "1"}, {"shared_determinants": "1", "remove_penalised_group": "0"},
             {"common_charge_centre": "1"}, {"remove_penalised_group": "0"}]
 
@@ -72,6 +80,11 @@ def check_case(case):
         changes = dict(case["flags"])
         if case.get("loose"):
             changes.update(LOOSE)
+        opt = cfgs.options({"changes": changes})
+    if case.get("thresholds") is not None:
+        from vlib import cfgs
+        changes = dict(case.get("flags") or {})
+        changes.update(THRESHOLDS[case["thresholds"]])
         opt = cfgs.options({"changes": changes})
     opt = list(opt) + list(case.get("extra_opt") or [])
     ron, swaps = run_with(text, True, count_swaps=True, opt=opt)
@@ -265,9 +278,12 @@ def run_shard(ctx):
             case["flags"] = FLAGSETS[1 + (len(text) // 5) % 4]
             case["loose"] = bool((len(text) // 20) % 2)
             s.labels.append("coupling-switches")
+        if len(text) % 4 == 3:
+            case["thresholds"] = (len(text) // 4) % len(THRESHOLDS)
+            s.labels.append("analysis-thresholds")
         s.labels.append("label-twins") if tw else None
         v, info = check_case(case)
-        info["labels"] = info.get("labels", []) + [l for l in s.labels if l.startswith("cluster:") or l in ("label-twins", "alt-loc-rotamers", "coupling-switches", "verbosity-option")]
+        info["labels"] = info.get("labels", []) + [l for l in s.labels if l.startswith("cluster:") or l in ("label-twins", "alt-loc-rotamers", "coupling-switches", "verbosity-option", "analysis-thresholds")]
         info["sample"] = {"structure": s.summary(), "threaded": s.info.get("mutated"), "swap_calls": info.get("swaps")}
         ctx.account(case, v, info)
 
@@ -280,17 +296,21 @@ def run_shard(ctx):
 
     ctx.hypothesis_stage("on-vs-off-after-a-display-run", cases(), after_display, 48 if quick else 1600)
 
-    names = [(n, loose, fl) for n in ("1FTJ-Chain-A", "1HPX", "3SGB", "4DFR") for loose in (False, True)
+    names = [(n, loose, fl, None) for n in ("1FTJ-Chain-A", "1HPX", "3SGB", "4DFR") for loose in (False, True)
              for fl in FLAGSETS]
+    names += [(n, False, None, k) for n in ("1FTJ-Chain-A", "1HPX", "3SGB", "4DFR") for k in range(len(THRESHOLDS))]
     mine = [names[i] for i in ctx.my_slice(len(names))]
 
     def corpus_body(t):
-        n, loose, fl = t
+        n, loose, fl, thr = t
         case = {"pdb": gen.corpus_text(n), "loose": loose, "flags": fl}
+        if thr is not None:
+            case["thresholds"] = thr
         v, info = check_case(case)
         info["labels"] = info.get("labels", []) + (["loose-coupling-parameters"] if loose else []) + \
-            (["coupling-switches"] if fl else [])
+            (["coupling-switches"] if fl else []) + (["analysis-thresholds"] if thr is not None else [])
         info["sample"] = {"structure": "corpus " + n, "loose_coupling_parameters": loose, "switches": fl,
+                          "analysis_thresholds": THRESHOLDS[thr] if thr is not None else None,
                           "swap_calls": info.get("swaps")}
         ctx.account(case, v, info)
 
